@@ -21,7 +21,7 @@ from typing import Any, Callable, Dict, Iterable, Iterator, List, Optional, Tupl
 import cloudpickle
 
 from .kernel import Sim
-from .seams import SimAllocator
+from .seams import SimAllocator, MODSTATE
 
 try:  # the exception class real loky raises when a worker dies
     from joblib.externals.loky.process_executor import TerminatedWorkerError
@@ -35,6 +35,7 @@ class _Worker:
         self.name = name
         self.alloc = world.new_alloc(name)
         self.batches_done = 0
+        self.modstate = MODSTATE.fresh()  # a new process imports the modules afresh
 
 
 class World:
@@ -53,6 +54,8 @@ class World:
         self._loky: Dict[Tuple[int, str], List[_Worker]] = {}
         self._n_workers_made = 0
         self.on_parallel_call: List[Callable[[int, int], None]] = []  # (n_jobs, n_tasks)
+        self.modstate = MODSTATE.fresh()   # the parent process of this run starts from import-time state
+        MODSTATE.bind(self.modstate)
 
     # -- identity seam -----------------------------------------------------
     def id_fn(self) -> Callable[[Any], int]:
@@ -173,7 +176,10 @@ class World:
             w = ws[wi]
             a, b = batches[bi]
             prev_alloc, prev_depth = self.cur_alloc, self.depth
+            prev_state = MODSTATE.current() if w.modstate else None
             self.cur_alloc, self.depth = w.alloc, self.depth + 1
+            if w.modstate:
+                MODSTATE.bind(w.modstate)
             try:
                 items = pickle.loads(payloads[bi])
                 outs = []
@@ -186,6 +192,8 @@ class World:
                     w.alloc.collect()
             finally:
                 self.cur_alloc, self.depth = prev_alloc, prev_depth
+                if prev_state is not None:
+                    MODSTATE.bind(prev_state)
             w.batches_done += 1
             for k, r in zip(range(a, b), back):
                 results[k] = r
